@@ -149,6 +149,10 @@ def main(argv=None):
         return 0
 
     if a.clause:
+        unknown = [n for n in a.clause if n not in [c.name for c in clauses]]
+        if unknown:
+            print("HARNESS-ERROR property=%s unknown clause %s (have: %s)" % (prop, unknown, [c.name for c in clauses]))
+            return 2
         clauses = [c for c in clauses if c.name in a.clause]
     violations = []   # (clause, case, viol, path)
     harness_errors = []
